@@ -233,7 +233,7 @@ Proof. intros Hu. unfold a_to_expr. by rewrite node_of_bind, Hu. Qed.
 Theorem astep_to_expr_live w m h u :
   let a := aworld_get w m in
   let w' := fst (astep_to_expr w m h) in
-  AInv a → max_nodes (mgr a) = None → handles a !! h = Some u →
+  AInv a → handles a !! h = Some u →
   ∃ t : Parser.ast,
     snd (astep_to_expr w m h) = Ok (VS (expr_text t)) ∧
     aworld_get w' m = a ∧
@@ -242,7 +242,7 @@ Theorem astep_to_expr_live w m h u :
     lex (te_spellings t) = Some (te_tokens t) ∧
     parse code_prec (te_tokens t) = Some t ∧
     split_formula (expr_text t) = te_spellings t ∧
-    ∀ w1, aworld_get w1 m = a →
+    ∀ w1, max_nodes (mgr a) = None → aworld_get w1 m = a →
       let a2 := aworld_get (fst (astep_expr w1 m (te_spellings t))) m in
       snd (astep_expr w1 m (te_spellings t)) = Ok (VN (next_hid a)) ∧
       handles a !! next_hid a = None ∧
@@ -252,13 +252,13 @@ Theorem astep_to_expr_live w m h u :
       (∀ ρ, denv (mgr a2) u ρ = denv (mgr a) u ρ) ∧
       (∀ k, hledger a2 k = hledger a k + (if decide (k = absn u) then 1 else 0)).
 Proof.
-  intros a w' HA Hmx Hu.
+  intros a w' HA Hu.
   destruct (a_to_expr_live h u a HA Hu) as (t&Et&Hok&Hsem&Hlex&Hparse&Hsplit).
   destruct (astep_to_expr_spec w m h) as (r&a1&E&Er&Ea&Eo).
   fold a in E. fold w' in Ea, Eo. rewrite Et in E. injection E as <- <-.
   exists t. split; [done|]. split; [done|]. split; [done|]. split; [done|].
   split; [done|]. split; [done|]. split; [done|]. split; [done|].
-  intros w1 Ew1 a2.
+  intros w1 Hmx Ew1 a2.
   assert (HA1 : AInv (aworld_get w1 m)) by (by rewrite Ew1).
   assert (Hok1 : ok_ast (mgr (aworld_get w1 m)) t) by (by rewrite Ew1).
   assert (Hmx1 : max_nodes (mgr (aworld_get w1 m)) = None) by (by rewrite Ew1).
@@ -289,19 +289,21 @@ Qed.
 Theorem astep_to_expr_text w m h u :
   let a := aworld_get w m in
   let w' := fst (astep_to_expr w m h) in
-  AInv a → max_nodes (mgr a) = None → handles a !! h = Some u →
+  AInv a → handles a !! h = Some u →
   ∃ txt, snd (astep_to_expr w m h) = Ok (VS txt) ∧ aworld_get w' m = a ∧
+    (max_nodes (mgr a) = None →
     let a2 := aworld_get (fst (astep_expr w' m (split_formula txt))) m in
     snd (astep_expr w' m (split_formula txt)) = Ok (VN (next_hid a)) ∧
     handles a !! next_hid a = None ∧
     handles a2 = <[next_hid a := u]> (handles a) ∧
     next_hid a ≠ h ∧ handles a2 !! h = Some u ∧ handles a2 !! next_hid a = Some u ∧
-    AInv a2 ∧ AKeepAll a a2.
+    AInv a2 ∧ AKeepAll a a2).
 Proof.
-  intros a w' HA Hmx Hu.
-  destruct (astep_to_expr_live w m h u HA Hmx Hu) as (t&Hr&Ea&_&_&_&_&_&Hsplit&Hrt).
+  intros a w' HA Hu.
+  destruct (astep_to_expr_live w m h u HA Hu) as (t&Hr&Ea&_&_&_&_&_&Hsplit&Hrt).
   fold a in Ea, Hrt. fold w' in Ea. exists (expr_text t). split; [done|]. split; [done|].
-  rewrite Hsplit. destruct (Hrt w' Ea) as (?&Hfr&Hh&_&?&?&_).
+  intros Hmx.
+  rewrite Hsplit. destruct (Hrt w' Hmx Ea) as (?&Hfr&Hh&_&?&?&_).
   assert (Hne : next_hid a ≠ h) by (intros E; rewrite E in Hfr; congruence).
   split; [done|]. split; [done|]. split; [done|]. split; [done|].
   split; [by rewrite Hh, lookup_insert_ne|]. split; [by rewrite Hh, lookup_insert|]. done.
